@@ -67,6 +67,10 @@ def rt_written(obs):
         rw.append("%s:%s,%s,%s,%s" % (m.group(1), st, m.group(4), m.group(5), m.group(6)))
         if m.group(7) != "1":
             return ";".join(sorted(rw)), False
+        hv = re.search(r",hv=(-?\d+)/(-?\d+)", part)
+        if hv and hv.group(2) != "-1" and hv.group(1) != hv.group(2):
+            # e.g. an array header of three elements written as one field line
+            return ";".join(sorted(rw)) + " [header field lines written %s, value carries %s]" % (hv.group(1), hv.group(2)), False
     return ";".join(sorted(rw)), True
 
 
@@ -82,6 +86,8 @@ def check(ctx, prop, modules, theorems, rule, explanation, assumptions, level):
         for g in gens:
             k = g[1] if not (len(g) > 3 and g[3]) else "broken"
             gout[k] = gout.get(k, 0) + 1
+        core.flag_broken_packages(ctx, gens, {"C02": "no handler of it can return any response", "C09": "no client of it can send a request",
+                                              "C10": "no client of it can receive a response"}.get(prop, "the property cannot hold for it"))
         if prop == "C02":
             # generator outcome vs the model's reading of goag's own rejections
             for g in gens:
@@ -149,6 +155,9 @@ def check(ctx, prop, modules, theorems, rule, explanation, assumptions, level):
                 okr = okr and okm  # the model IS the reference reading of the status set here
                 detail = {"client": o[:300], "model_arm": m[0]}
                 distinct.add((cid.split("#")[0], cid.split("#")[1].split(".")[0], m[0]))
+            elif prop in ("C09", "C10") and kind == "c" and o.startswith("skip:"):
+                st["kinds"]["skipped(" + o[5:] + ")"] = st["kinds"].get("skipped(" + o[5:] + ")", 0) + 1
+                continue
             elif prop in ("C09", "C10") and kind == "c":
                 mm = re.match(r"sent=(.*) parsed=(.*) wire=(.*) respsent=(.*) respgot=(.*)$", o)
                 st["evaluations"] += 1
